@@ -43,7 +43,7 @@ CFG = {
     "components": [{"component": "gather", "session_start": "new", "trivial_regex": r"^(bad-op.*|r=err:.*)$",
                     "timeout_quick": 300, "timeout_thorough": 1500, "shrink_s": 40}],
     "rule": "quick: all 16 network-type subsets x {no TCP mux, TCP mux} x 2 interface tables with double gather and restart; "
-            "39 lists of TURN URLs with / without username / password (every order) x 2 configurations x a reply script; continual gathering: 13 configurations x a script with an address appearing 1 ms before / at a tick, special-purpose, "
+            "20 configurations covering every kind of local candidate x mDNS name on/off x a reply script; 39 lists of TURN URLs with / without username / password (every order) x 2 configurations x a reply script; continual gathering: 13 configurations x a script with an address appearing 1 ms before / at a tick, special-purpose, "
             "loopback, filtered and down-interface addresses, removal, interface down/up, Restart, Close; Restart / Close / refused "
             "gather while a re-gather pass is parked at the mux gate or waits for STUN / TURN (reply after the cancellation or never); "
             "ticks during a pass; table change during the first pass; 1 random session in 6 continual with 1-4 random table changes; "
